@@ -5,10 +5,8 @@ package ws
 import (
 	"bytes"
 	"context"
-	"io"
 	"net"
 	"net/url"
-	"time"
 
 	"github.com/gobwas/httphead"
 )
@@ -33,86 +31,6 @@ func vIsKey16(k []byte) bool {
 	// 16 bytes = 21 full sextets + 2 bits: the 22nd character carries 2 data bits, low 4 zero
 	ok = vAnd(ok, vB64Val(k[21])&0xf == 0)
 	return vAnd(ok, vAnd(k[22] == '=', k[23] == '='))
-}
-
-// vSplitReq parses the request the dialer wrote (concrete apart from the key).
-type vReqParsed struct {
-	ok      bool
-	line    string
-	names   []string
-	values  [][]byte
-}
-
-func vParseReq(b []byte) (r vReqParsed) {
-	end := bytes.Index(b, []byte("\r\n\r\n"))
-	if end < 0 || end+4 != len(b) {
-		return r
-	}
-	lines := bytes.Split(b[:end], []byte("\r\n"))
-	r.line = string(lines[0])
-	for _, l := range lines[1:] {
-		i := bytes.Index(l, []byte(": "))
-		if i < 0 {
-			return r
-		}
-		r.names = append(r.names, string(l[:i]))
-		r.values = append(r.values, l[i+2:])
-	}
-	r.ok = true
-	return r
-}
-
-func (r vReqParsed) get(name string) ([]byte, int) {
-	var v []byte
-	n := 0
-	for i, k := range r.names {
-		if k == name {
-			if n == 0 {
-				v = r.values[i]
-			}
-			n++
-		}
-	}
-	return v, n
-}
-
-// vServer is the harness' peer: it swallows the request and serves a scripted response.
-type vServer struct {
-	out      []byte // what the dialer wrote
-	resp     func(key []byte) []byte
-	in       []byte
-	started  bool
-	pos      int
-	chunks   []int // sizes of successive reads (0 = rest)
-	reads    int
-	keySeen  []byte
-}
-
-func (s *vServer) Write(p []byte) (int, error) { s.out = append(s.out, p...); return len(p), nil }
-
-func (s *vServer) Read(p []byte) (int, error) {
-	if !s.started {
-		s.started = true
-		i := bytes.Index(s.out, []byte("Sec-WebSocket-Key: "))
-		if i >= 0 && len(s.out) >= i+19+24 {
-			s.keySeen = s.out[i+19 : i+19+24]
-		}
-		s.in = s.resp(s.keySeen)
-	}
-	if s.pos >= len(s.in) {
-		return 0, io.EOF
-	}
-	n := len(s.in) - s.pos
-	if s.reads < len(s.chunks) && s.chunks[s.reads] > 0 && s.chunks[s.reads] < n {
-		n = s.chunks[s.reads]
-	}
-	s.reads++
-	if n > len(p) {
-		n = len(p)
-	}
-	copy(p, s.in[s.pos:s.pos+n])
-	s.pos += n
-	return n, nil
 }
 
 // C10_request_wellformed: the upgrade request is a well-formed GET with every mandatory header
@@ -394,23 +312,6 @@ func C10_trailing_bytes() {
 	}
 	vAssert(vEqBytes(got, trailing), "trail.every_byte_once_in_order")
 }
-
-type vStubAddr struct{}
-
-func (vStubAddr) Network() string { return "tcp" }
-func (vStubAddr) String() string  { return "stub" }
-
-type vNetConn struct {
-	vServer
-	closed bool
-}
-
-func (c *vNetConn) Close() error                       { c.closed = true; return nil }
-func (c *vNetConn) LocalAddr() net.Addr                { return vStubAddr{} }
-func (c *vNetConn) RemoteAddr() net.Addr               { return vStubAddr{} }
-func (c *vNetConn) SetDeadline(t time.Time) error      { return nil }
-func (c *vNetConn) SetReadDeadline(t time.Time) error  { return nil }
-func (c *vNetConn) SetWriteDeadline(t time.Time) error { return nil }
 
 // C10_hostport: ws/wss URLs are dialed at host:port with defaults 80/443; TLS gets the host name.
 func C10_hostport() {
